@@ -223,7 +223,7 @@ Fixpoint monitor_from (m : mstate) (ops : list op) (bs : list obs) : bool :=
       | OCreateNs d rep _ p, BUnit => monitor_from (m_create m d rep p) r br
       (* a released loop: whatever it ran, every single callback must be allowed (on the owner,
          not cancelled, a one-shot for the first time ...) *)
-      | (OStart | ORun), BRan l =>
+      | (OStart | ORun), (BRan l | BRanCut l) =>
           let '(b1, m1) := m_cbs m l in b1 && monitor_from m1 r br
       (* nobody was released (the model runs nothing here): whatever the implementation ran -
          before Start(), while the loop is busy, inside Stop() whoever calls it, after the
